@@ -217,6 +217,14 @@ func matrixCmd(args []string) error {
 					}
 				}
 			}
+			// nearly neutral colours: the three channels within a few 16-bit codes (or far less) of each other
+			for _, g := range []float32{-0.25, 1.0 / 64, 0.1796875, 0.5, 0.75, 1, 1.5} {
+				for _, d := range []float32{1.0 / (1 << 13), 1.0 / (1 << 14), 1.0 / (1 << 15), 1.0 / (1 << 17), 1.0 / (1 << 20)} {
+					emit(g, g+d, g-d/2)
+					emit(g+d, g, g)
+					emit(g, g, g-d)
+				}
+			}
 			for i := 0; i < nseed; i++ {
 				a, b, c := seeded(), seeded(), seeded()
 				emit(a, b, c)
